@@ -493,7 +493,49 @@ async fn gen_proc(sim: &mut Sim, rng: &mut Prng, stats: &mut Stats, name: &str) 
                 }
                 sim.eval(n);
             }
-            89..=93 => {
+            89..=89 => {
+                // external catch-up: n fetches what peer m currently holds about a third member x
+                // (key-values, max version, watermark) and feeds it to reset_node_state_if_update
+                let m = rng.below(live_nodes as u64) as usize;
+                let x = rng.below(live_nodes as u64) as usize;
+                if m != n && x != n && x != m && rng.chance(1, 2) {
+                    // the story in which the fetched state no longer has a key the stale copy holds:
+                    // x writes k, n learns it, x deletes k, m learns the tombstone and collects it
+                    sim.set(x, "ck", "v");
+                    full_handshake(sim, n, x);
+                    sim.delete(x, "ck");
+                    sim.set(x, "ck2", "w");
+                    full_handshake(sim, m, x);
+                    sim.tick(kv_grace).await;
+                    sim.gc(m);
+                    stats.bump("op_catchup_after_collected_deletion");
+                }
+                if m != n && x != n {
+                    let xid = sim.nodes[x].spec.id.clone();
+                    let fetched = sim.nodes[m].chitchat.node_state(&xid).map(|ns| {
+                        let kvs: Vec<(String, String, u64, u8)> = ns
+                            .key_values_including_deleted()
+                            .map(|(k, vv)| {
+                                let st = match vv.status {
+                                    DeletionStatus::Set => 0u8,
+                                    DeletionStatus::Deleted(_) => 1,
+                                    DeletionStatus::DeleteAfterTtl(_) => 2,
+                                };
+                                (k.to_string(), vv.value.clone(), vv.version, st)
+                            })
+                            .collect();
+                        (kvs, ns.max_version(), ns.last_gc_version())
+                    });
+                    if let Some((kvs, mx, gc)) = fetched {
+                        if kvs.iter().all(|(_, v, _, _)| v.len() < 4_000) {
+                            sim.raw_record("HONEST", "ok");
+                            sim.catchup(n, &xid, &kvs, mx, gc);
+                            stats.bump("op_catchup_from_peer");
+                        }
+                    }
+                }
+            }
+            90..=93 => {
                 sim.eval(n);
                 stats.bump("op_eval");
             }
@@ -890,6 +932,25 @@ pub async fn gen_delta(sim: &mut Sim, rng: &mut Prng, stats: &mut Stats, name: &
             sim.delta(0, &digest_text(&[]), &dbytes, mtu, &[]);
         }
         stats.bump("delta_setmax_budget_sweeps");
+        return;
+    }
+    if rng.chance(1, 10) {
+        // an entry whose encoded operation is longer than a block payload can ever be (key + value >
+        // 65,521 bytes) between two small ones: it can never be sent, and nothing after it may be
+        stats.bump("delta_oversized_entry");
+        sim.set(0, "a", "1");
+        let klen = rng.range(530, 700) as usize;
+        let k: String = "k".repeat(klen);
+        let v = high_entropy_string(rng, 65_000);
+        sim.set(0, &k, &v);
+        sim.set(0, "z", "2");
+        let mut dbytes = Vec::new();
+        put_digest(&mut dbytes, &[]);
+        for mtu in [65_507usize - 4, 65_000, 40_000, 1_000] {
+            sim.delta(0, &digest_text(&[]), &dbytes, mtu, &[]);
+        }
+        // and through the real handshake path
+        sim.deliver(0, &syn_bytes("c", &[]));
         return;
     }
     let mode = rng.below(4);
@@ -1315,7 +1376,7 @@ pub async fn gen_wire(sim: &mut Sim, rng: &mut Prng, stats: &mut Stats, name: &s
                         b[3] = rng.below(5) as u8;
                     } else if rng.chance(1, 4) {
                         // a bare header, complete or not
-                        b = [0x53u8, 0xb0, 0, rng.below(5) as u8][..rng.range(1, 5) as usize].to_vec();
+                        b = [0x53u8, 0xb0, 0, rng.below(5) as u8][..rng.range(1, 4) as usize].to_vec();
                     }
                     bytes = b;
                     stats.bump("wire_noise");
@@ -1916,6 +1977,21 @@ async fn gen_conv(sim: &mut Sim, rng: &mut Prng, stats: &mut Stats, name: &str) 
         sim.delete(o, "t2");
         sim.tick(kv_grace + 1).await;
         sim.gc(o);
+    }
+    if rng.chance(1, 5) && sim.nodes.len() >= 3 {
+        // the initiator a holds news about a member x that it has just classified dead (not yet
+        // quarantined: dead for less than half the grace period); a complete handshake a -> b must
+        // still carry them to b
+        stats.bump("conv_cases_news_about_a_dead_member");
+        let x = rng.below(sim.nodes.len() as u64) as usize;
+        let a = (x + 1) % sim.nodes.len();
+        let b = (x + 2) % sim.nodes.len();
+        full_handshake(sim, a, b);
+        full_handshake(sim, b, a);
+        sim.set(x, "dm", "1");
+        full_handshake(sim, a, x);
+        sim.eval(a);
+        marked_handshake(sim, a, b);
     }
     if rng.chance(1, 5) && sim.nodes.len() >= 3 {
         // a relay still holds the owner's top tombstone, the owner alone collected it, a third node
